@@ -15,6 +15,8 @@ for cls in (C05, C01, C03, C04, C10, C11, C19, C02, C06, C12, C08, C09, C17, C14
 
 # tie T1: which re-translated functions (GenEq/<name>.v) each property's theorems are about.  A function's equality also breaks
 # when something it calls changes (the regenerated caller refers to the regenerated callee), so only entry points are listed.
+# ApiSource, RfSource, Transfer, SrcC<nn>: the property's theorems restated about the regenerated definitions (they depend only on
+# equalities already in the property's scope, so they add no alarm of their own).
 _API = ["Fb_new", "Fb_empty", "Fb_filled", "Fb_default", "Fb_into_inner", "Fb_len", "Fb_is_empty", "Fb_clear", "Fb_mem_", "Fb_readable", "Fb_read_bytes", "Fb_read_byte",
         "Fb_try_read_byte", "Fb_try_read_bytes", "Fb_read_all", "Fb_read_and_copy_bytes", "Fb_try_read_exact", "Fb_writable", "Fb_wrote",
         "Fb_write_bytes", "Fb_write_str", "Fb_shift", "Fb_try_parse", "Fb_deframe", "Fb_io_write", "Fb_io_flush", "Fb_io_read",
@@ -26,12 +28,12 @@ _AAD_R = ["Ta_achain_poll_read", "Ta_atake_poll_read"]
 _AAD_W = ["Ta_achain_poll_write", "Ta_achain_poll_flush", "Ta_achain_poll_shutdown", "Ta_atake_poll_write", "Ta_atake_poll_flush", "Ta_atake_poll_shutdown"]
 _ASYNC = ["Tk_afb_deref", "Tk_afb_deref_mut", "Tk_arf_pre", "Tk_arf_post", "Tk_aco_pre", "Tk_aco_post"]
 GEN_SCOPE = {
-    "C01": _API, "C03": _API, "C04": _API + _DF,
-    "C02": ["Fb_read_frame", "Transfer"] + _DF, "C05": _DF, "C06": ["Fb_read_frame"] + _DF,
+    "C01": _API + ["ApiSource"], "C03": _API + ["ApiSource"], "C04": _API + _DF + ["ApiSource"],
+    "C02": ["Fb_read_frame", "RfSource", "SrcC05", "Transfer"] + _DF, "C05": _DF + ["SrcC05"], "C06": ["Fb_read_frame", "RfSource", "SrcC06"] + _DF,
     "C07": ["Fb_read_frame", "Fb_io_read", "Ad_chain_read", "Ad_take_read"] + _DF + _ASYNC + _AAD_R + ["Tk_afb_poll_read"],
-    "C08": ["Ad_chain_read"], "C09": ["Ad_take_read"],
-    "C10": ["Fb_deframe", "Fb_mem_"] + _DF, "C11": ["Fb_try_parse"] + _READS,
-    "C12": ["Fb_read_frame", "Fb_copy_once_from"],
+    "C08": ["Ad_chain_read", "SrcC08"], "C09": ["Ad_take_read", "SrcC09"],
+    "C10": ["Fb_deframe", "Fb_mem_", "SrcC10"] + _DF, "C11": ["Fb_try_parse", "SrcC11"] + _READS,
+    "C12": ["Fb_read_frame", "Fb_copy_once_from", "SrcC12"],
     "C13": ["Ad_chain_write", "Ad_chain_flush", "Ad_take_write", "Ad_take_flush"] + _AAD_W,
     "C16": _AAD_R, "C17": _AFB,
     "C14": _ASYNC, "C15": _ASYNC,
